@@ -274,6 +274,9 @@ CONTEXTS = [
 ]
 
 
+NO_UPDATE = {"repeat", "recurse", "while"}     # `f |= .` over an infinite path set never ends
+
+
 def callables_of(nat):
     """[(name, arity, label)] of every native and prelude definition, minus the excluded ones"""
     seen = set()
@@ -329,6 +332,8 @@ def native_requests(callables, vals, seed, thorough):
                        "meta": [(site, "%s|const-all" % c)]}
         # T3: other evaluation contexts (paths, updates, interpolation, binders)
         for cname, tmpl in CONTEXTS:
+            if cname == "update" and name in NO_UPDATE:
+                continue
             prog = tmpl.replace("{C}", call(name, ["."] * n))
             chosen = _pick(vals, 12 if thorough else 5, seed, label, cname)
             yield {"prog": prog, "cases": [{"input": enc(v)} for _c, v in chosen],
@@ -342,7 +347,7 @@ def pipeline_requests(callables, vals, rng, count):
         names = []
         for _k in range(rng.randrange(2, 4)):
             name, n, label = rng.choice(callables)
-            args = [rng.choice([".", "$v", jstr(rng.choice(str_vals)[1]), ".[0]?"]) for _ in range(n)]
+            args = [rng.choice([".", "$v", jstr(rng.choice(str_vals)[1]), "(.[0]? // .)"]) for _ in range(n)]
             parts.append("(try limit(3; %s) catch .)" % call(name, args))
             names.append(label)
         prog = ".[0] as $v | .[1] | " + " | ".join(parts)
